@@ -1,5 +1,39 @@
 """Property -> machinery."""
 PROPS = {
+    "C16": {
+        "x": ["harness.hC16"],
+        "extra": ["harness.pC16.run"],
+        "level": "other",
+        "explanation": "Engine X on the value readers and header handlers behind the alternative spellings: integer bases, "
+                       "quote styles (single- and multi-line), redundant leading zeros of decimals, deprecated vs new "
+                       "routine-target headers (stand-in contexts): two spellings read to one value for every value within "
+                       "the bounds. Whitespace/comment/line-joining insensitivity is a property of the generated lexer "
+                       "ATN, which cannot be executed symbolically: it is exercised by enumerated re-spellings of the "
+                       "F1-F4 programs compiled through the real lexer/parser (E6) and not claimed as solver-decided.",
+        "technique": "CrossHair+z3 on literal readers and routine-header handlers; enumerated re-spellings through the "
+                     "real lexer/parser",
+        "level_text": "Literal-level equivalences are solver-decided within bounds; layout/comment insensitivity only by "
+                      "enumeration.",
+        "level_note": "Trusted: CrossHair, z3. The lexer half of the property (whitespace, comments, line joining) is "
+                      "outside the solver-decided claim.",
+        "assumptions": ["lexer ATN not encodable", "layouts enumerated (6 per program)"],
+    },
+    "C18": {
+        "x": ["harness.hC18"],
+        "extra": ["harness.pC18.run"],
+        "level": "other",
+        "explanation": "Engine X: the real PositionMarkVisitor runs on duck-typed stand-in parse trees whose token lines and "
+                       "columns are symbolic (unbounded): one entry per position_marker node, in tree order, with the "
+                       "documented span arithmetic and the fields the compile handler produces. The argument parser shared "
+                       "with the compiler is C04-S6. Enumerated sources through the real parser validate the stand-ins and "
+                       "check in-place replacement (splice, compile, exactly one parameter changes).",
+        "technique": "CrossHair+z3 symbolic execution of the real PositionMarkVisitor on stand-in trees with symbolic "
+                     "token positions; enumerated splice-and-compile through the real parser",
+        "level_text": "Span arithmetic and order are solver-decided for all token positions on 5 tree shapes; correctness of "
+                      "ANTLR's own token positions is outside the claim and only exercised by the enumerated part.",
+        "level_note": "Trusted: CrossHair, z3, the stand-in tree (validated against the real parser on enumerated sources).",
+        "assumptions": ["ANTLR token positions are correct", "tree shapes case-split"],
+    },
     "C11": {
         "x": ["harness.hC11"],
         "extra": ["harness.pC11.run"],
